@@ -41,7 +41,7 @@ def shapeAdvance (cfg : SplitCfg) (sh : Shape) (t : Tok) : Except PyErr Shape :=
   else if t.tt == T.Keyword then
     match splitFirst cfg.isSpace t.val with
     | none => .error .indexError
-    | some w => .ok (if w == txt "GO" then { sh1 with consumeWs := true } else sh1)
+    | some w => .ok (if cfg.upper w == txt "GO" then { sh1 with consumeWs := true } else sh1)
   else .ok sh1
 
 def shapeStep (cfg : SplitCfg) (sh : Shape) (t : Tok) : Except PyErr Shape :=
@@ -79,7 +79,7 @@ theorem splitAdvance_shape (cfg : SplitCfg) (s : SplitState) (t : Tok) :
       cases splitFirst cfg.isSpace t.val with
       | none => rfl
       | some w =>
-        by_cases h3 : (w == txt "GO") = true
+        by_cases h3 : (cfg.upper w == txt "GO") = true
         · simp [h3, Except.map, shapeOf, List.all_append]
         · simp [h3, Except.map, shapeOf, List.all_append]
     · rw [if_neg h2, if_neg h2]; simp [Except.map, shapeOf, List.all_append]
